@@ -84,3 +84,11 @@ CORPUS += [
     Mut('c09-epochs-looked-up-in-the-grid-of-the-first-sample', 'torchtree/evolution/bdsk.py', '', "        indices_x = torch.searchsorted(times, x, right=True) - 1\n",
         "        indices_x = torch.bucketize(x, times.reshape(-1, times.shape[-1])[0], right=True) - 1\n", mode='text', expect=[('C09.A', 'rows::evolution.bdsk.PiecewiseConstantBirthDeath.log_prob::')]),
 ]
+CORPUS += [
+    Mut('c09-rho-domain-tightened-in-the-skyline-only', 'torchtree/evolution/bdsk.py', '', "        'rho': constraints.unit_interval,\n    }\n    support = constraints.nonnegative\n",
+        "        'rho': constraints.half_open_interval(0.0, 1.0),\n    }\n    support = constraints.nonnegative\n", mode='text', expect=[('C09.F', 'arg_constraints::rho::siblings-agree')]),
+    Mut('c09-benign-nonnegative-spelt-as-greater-than-eq', 'torchtree/evolution/bdsk.py', '', "        'lambda_': constraints.nonnegative,\n        'mu': constraints.positive,\n        'psi': constraints.nonnegative,\n",
+        "        'lambda_': constraints.greater_than_eq(0.0),\n        'mu': constraints.positive,\n        'psi': constraints.nonnegative,\n", mode='text', benign=True),
+    Mut('c09-model-hands-the-last-rho-only', 'torchtree/evolution/bdsk.py', '', "            rho=torch.zeros(1) if self.rho is None else self.rho.tensor,\n",
+        "            rho=torch.zeros(1) if self.rho is None else self.rho.tensor[..., -1:],\n", mode='text', expect=[('C09.K', 'BDSKModel._call::rho::whole-parameter')]),
+]
